@@ -831,7 +831,7 @@ func (r *TypeClassSummonContext) lookupTypeClassInstance(ctx CurrentContext, req
 			target: either.Right[NotDefinedInstance](either.Right[SummonExprInstance](either.NotRight[DefinedInstance](ret))),
 		}
 	case *types.Named:
-		if at.Obj().Pkg().Path() == "github.com/csgura/fp/hlist" {
+		if at.Obj().Pkg() != nil && at.Obj().Pkg().Path() == "github.com/csgura/fp/hlist" {
 			//fmt.Printf("lookup named hlist %s\n", req.Type)
 
 			if at.Obj().Name() == "Nil" {
